@@ -58,3 +58,13 @@ Definition anyof_call (calls : list (option emitter)) : list bool := map (fun _ 
 Definition obs_trun (ops : list top) : obs :=
   let '(s, fs) := trun acc0 ops in
   OL [OL (map ob fs); OL (map (fun c => on (e_id c)) (a_conns s)); on (List.length (a_recv s))].
+
+(* per-step observation: fired?, size of the received set after the step *)
+Fixpoint trun_steps (s : acc) (ops : list top) : list (bool * nat) :=
+  match ops with
+  | [] => []
+  | o :: r => let '(s1, f) := tstep s o in (f, List.length (a_recv s1)) :: trun_steps s1 r
+  end.
+Definition obs_trun_steps (ops : list top) : obs :=
+  OL [OL (map (fun p : bool * nat => OL [ob (fst p); on (snd p)]) (trun_steps acc0 ops));
+      OL (map (fun c => on (e_id c)) (a_conns (fst (trun acc0 ops))))].
